@@ -60,6 +60,10 @@ fn rhs_options(menu: &Menu, avail: u8) -> Vec<Rhs> {
     for k in menu.bind_rhs.iter() {
         match *k {
             "FC" => v.push(Rhs::FC),
+            "FV" => {
+                v.push(Rhs::FV(false));
+                v.push(Rhs::FV(true));
+            }
             "E" => (0..avail).for_each(|x| v.push(Rhs::E(x))),
             "F" => (0..avail).for_each(|x| v.push(Rhs::F(x))),
             "FG" => (0..avail).for_each(|x| v.push(Rhs::FG(x))),
@@ -152,6 +156,7 @@ fn canonical_under_var_swap(nodes: &[NodeSpec], nvars: usize) -> bool {
             Rhs::FF(x) => Rhs::FF(sw(*x)),
             Rhs::ST(x) => Rhs::ST(sw(*x)),
             Rhs::FC => Rhs::FC,
+            Rhs::FV(c) => Rhs::FV(*c),
             Rhs::NB(l, e, o) => Rhs::NB(sw(*l), Box::new(swr(e, sw)), Box::new(swr(o, sw))),
         }
     }
@@ -437,6 +442,7 @@ pub fn family(name: &str, _tier: Tier) -> Vec<Prog> {
         "shapes/fanout" => fanout_shapes(),
         "shapes/diamond" => diamond_shapes(),
         "shapes/pending" => pending_shapes(),
+        "shapes/bindvars" => bindvar_shapes(),
         // node creation interleaved with everything else (C01 "create node"): the derived nodes do not exist when the
         // history starts and appear one by one through `CreateNext` -- either all of them, or only the last one (a new
         // dependant of nodes that have long been computed); sinks observable, one observer at a time
@@ -966,6 +972,42 @@ pub fn nested_shapes() -> Vec<Prog> {
         mk(vec![var(0), var(2), bind(0, nb(0, F(1), F(1)), nb(0, F(1), F(1)))], 2),
         // inner bind whose input is a map over the outer bind's input
         mk(vec![var(0), var(2), map(F1::Half, 0), bind(0, nb(2, F(1), F(1)), nb(2, F(1), E(1)))], 3),
+    ]
+}
+
+/// Bind closures that create a *variable* (`Rhs::FV`: `state.var` / `state.var_current_scope` of the captured value), drop
+/// its handle before returning and hand back the watch node: variables are created, become necessary, are orphaned and torn
+/// down in the middle of stabilises; with a pinned bind the watch nodes can be observed and subscribed to directly.
+pub fn bindvar_shapes() -> Vec<Prog> {
+    use Rhs::*;
+    let nb = |l: u8, e: Rhs, o: Rhs| NB(l, Box::new(e), Box::new(o));
+    let plain = |nodes: Vec<NodeSpec>, observable: Vec<u8>| {
+        let mut p = Prog::new(nodes);
+        p.alpha.observable = observable;
+        p.alpha.max_observers = 2;
+        p.alpha.values = vec![0, 1, 2];
+        p.alpha.disallow = false;
+        p
+    };
+    let pinned = |nodes: Vec<NodeSpec>, pin: u8| {
+        let mut p = Prog::new(nodes);
+        p.pinned = vec![pin];
+        p.alpha.observe_inner = true;
+        p.alpha.observable = vec![pin];
+        p.alpha.subscribe = true;
+        p.alpha.max_subs = 1;
+        p.alpha.max_observers = 1;
+        p.alpha.disallow = false;
+        p.alpha.values = vec![0, 1, 2];
+        p
+    };
+    vec![
+        plain(vec![var(0), bind(0, FV(false), FV(true)), map(F1::Inc, 1)], vec![1, 2]),
+        plain(vec![var(0), var(1), map(F1::Inc, 1), bind(0, FV(false), E(2)), map2(F2::Mix, 3, 2)], vec![4, 3]),
+        plain(vec![var(0), var(1), bind(0, FV(true), F(1)), map(F1::Inc, 2)], vec![3, 2]),
+        plain(vec![var(0), var(1), bind(0, nb(1, FV(true), F(1)), FV(false)), map(F1::Inc, 2)], vec![3, 2]),
+        pinned(vec![var(0), var(1), bind(0, FV(false), FV(true))], 2),
+        pinned(vec![var(0), var(1), bind(0, nb(1, FV(true), FV(false)), FV(true))], 2),
     ]
 }
 
